@@ -28,7 +28,41 @@ ASSUMPTIONS = ["delays are injected only between processes (there are no shared-
                "a watchdog expiry without a confirmed deadlock is inconclusive, not a violation"]
 
 
+def gen_barcode_case(rng):
+    """Indexed anchored adapters and reads whose anchored end carries N in varying patterns (per-process lookup state
+    must not make the result depend on which reads a worker saw before)."""
+    prefix = rng.random() < 0.6
+    L = rng.randint(10, 14)
+    ads = []
+    for i in range(rng.randint(3, 6)):
+        s = "".join(rng.choice("AAACGT") for _ in range(L))
+        ads.append(s)
+    opts = []
+    for i, s in enumerate(ads):
+        opts += (["-g", f"bc{i}=^{s}"] if prefix else ["-a", f"bc{i}={s}$"])
+    opts += ["-e", rng.choice(["0.2", "0.25", "0.3"]), "-O", "3"] + (["--no-indels"] if rng.random() < 0.5 else [])
+    if rng.random() < 0.5:
+        opts += ["--info-file", "info.tsv"]
+    if rng.random() < 0.3:
+        opts += ["--discard-untrimmed"]
+    recs = []
+    for i in range(rng.randint(200, 500)):
+        a = list(rng.choice(ads))
+        apos = [j for j, c in enumerate(a) if c == "A"] or list(range(len(a)))
+        for j in rng.sample(apos, min(len(apos), rng.choice([0, 1, 1, 2, 3, 3]))):
+            a[j] = "N"
+        if rng.random() < 0.15:
+            j = rng.randrange(len(a)); a[j] = rng.choice("ACGTN")
+        ins = G.rnd(rng, rng.randint(15, 30))
+        s = "".join(a) + ins if prefix else ins + "".join(a)
+        recs.append((f"r{i}", s, "I" * len(s)))
+    io = ["-o", "out1.fastq"]
+    return dict(paired=False, opts=opts, io=io, recs1=recs, recs2=None, fasta_out=False, interleaved_in=False)
+
+
 def gen_case(rng):
+    if rng.random() < 0.2:
+        return gen_barcode_case(rng)
     paired = rng.random() < 0.5
     kinds = ["a", "a", "g", "b", "a$", "g^", "linked", "aX"]
     ads1 = [G.gen_adapter(rng, i, kinds=kinds) for i in range(rng.randint(1, 3))]
